@@ -334,6 +334,72 @@ def o5(h, st):
     h.done()
 
 
+# O7 histories: the same noise model / circuit objects across several translations ------------------------------------------
+
+def _channels(cc):
+    import cirq
+    got = []
+    for op in cc.all_operations():
+        g = op.gate
+        qs = tuple(q.x for q in op.qubits)
+        if isinstance(g, cirq.AsymmetricDepolarizingChannel):
+            got.append(("pauli", qs, (round(g.p_x, 12), round(g.p_y, 12), round(g.p_z, 12))))
+        elif isinstance(g, cirq.DepolarizingChannel):
+            got.append(("depol", qs, (round(g.p, 12),)))
+    return sorted(got)
+
+
+def _expected_channels(gates, errors):
+    exp = []
+    for g in gates:
+        for kind, par in errors.get(g.name, []):
+            qs = list(g.target) + list(g.control or [])
+            k = len(qs)
+            if kind == "pauli":
+                exp += [("pauli", (q,), tuple(round(x, 12) for x in par)) for q in qs]
+            else:
+                exp.append(("depol", tuple(qs), (round(par * (4 ** k - 1) / 4 ** k, 12),)))
+    return sorted(exp)
+
+
+@contract("C19", "O7.noise_insertion.histories", level="B", structures=lambda tier: [{"k": k} for k in range(4 if tier == "quick" else 12)],
+          native_samples=lambda st, rnd, tier: [{"seed": rnd.randint(0, 10 ** 6)}], targets=[(TC, "translate_c_to_cirq"), (NM, "NoiseModel.add_quantum_error")])
+def o7(h, st):
+    """bounded: the SAME noise-model object and the SAME circuit objects used for several translations in a row, with the model extended (a new noisy gate name, a second channel
+    on a name) and other circuits / other models translated in between: every translation carries exactly the channels of the model AS IT IS AT THAT CALL, with that model's
+    rates on that circuit's gates - nothing is remembered from an earlier translation"""
+    import random
+    from tangelo.linq.noisy_simulation import NoiseModel
+    rnd = random.Random(int(h.integer("seed")) + st["k"])
+    idx = list(range(len(GATES) - 1))
+    circs = []
+    for _ in range(2):
+        gl = [mk_gate(GATES[i][0], GATES[i][1], GATES[i][2], 0.4 if GATES[i][0] in PARAM else "") for i in rnd.sample(idx, 5)]
+        circs.append((mk_circuit(gl, 3), gl))
+    names = sorted({g.name for _, gl in circs for g in gl})
+    nm, other = NoiseModel(), NoiseModel()
+    h.call(NM, "NoiseModel.add_quantum_error", other, names[0], "depol", 0.33)
+
+    def check(tag, model, ci):
+        c, gl = circs[ci]
+        cc = h.call(TC, "translate_c_to_cirq", c, model)
+        got, exp = _channels(cc), _expected_channels(gl, model._quantum_errors)
+        h.check(tag + "channels == those of the model as it is now, on this circuit's gates", got == exp, detail=f"{got} vs {exp}")
+    h.call(NM, "NoiseModel.add_quantum_error", nm, names[0], "depol", round(rnd.uniform(0.05, 0.4), 3))
+    check("call 1: ", nm, 0)
+    h.call(NM, "NoiseModel.add_quantum_error", nm, names[1 % len(names)], "pauli", [0.1, 0.02, 0.05])
+    check("call 2 (model extended by a new noisy gate): ", nm, 0)
+    check("call 3 (other circuit): ", nm, 1)
+    check("call 4 (other model): ", other, 0)
+    if names[0] in nm._quantum_errors and not any(k == "pauli" for k, _ in nm._quantum_errors[names[0]]):
+        h.call(NM, "NoiseModel.add_quantum_error", nm, names[0], "pauli", [0.0, 0.2, 0.0])
+    h.call(NM, "NoiseModel.add_quantum_error", nm, names[-1], "depol", 0.21) if names[-1] not in nm._quantum_errors else None
+    check("call 5 (second channel on a noisy gate, another gate name with its own depolarising rate): ", nm, 0)
+    check("call 6 (first circuit again, other circuit's turn): ", nm, 1)
+    h.check("translations without a model carry no channel", _channels(h.call(TC, "translate_c_to_cirq", circs[0][0])) == [])
+    h.done()
+
+
 PROPERTY = {
     "level": "other",
     "explanation": "Channel insertion by the translator (which gates, which qubits, order, parameters) is proved from the AST for every rate value (symbolic "
